@@ -364,6 +364,7 @@ Section Model.
   Variable enc_table : list (string * encoder).     (* Gen: encode.register(...) *)
   Variable type_key : string.                       (* Gen: DC_TYPE_KEY *)
   Variable s2b : string -> option bool.             (* Gen: utils.str2bool, used by _decode_bool for str *)
+  Variable int_float_cmp : bool.                    (* Gen: _decode_int evaluates float(v) when v already is an int *)
   Variable sigma : list prim -> list prim.          (* oracle: iteration order of a set (a permutation) *)
   Variable encf : Z -> value -> prim.               (* the user's encoding_fn number k *)
   Variable decf : Z -> prim -> res value.           (* the user's decoding_fn number k *)
@@ -427,7 +428,9 @@ Section Model.
     end.
   Definition dec_int (p : prim) : res value :=
     match p with
-    | PInt z => if Z.abs z <? FLOAT_OVERFLOW then Ok (VInt z) else Err (Raise "OverflowError")  (* float(v) *)
+    | PInt z => if int_float_cmp && negb (Z.abs z <? FLOAT_OVERFLOW)
+                then Err (Raise "OverflowError")     (* float(v) of an int beyond the float range *)
+                else Ok (VInt z)
     | PBool b => Ok (VInt (if b then 1 else 0))
     | PFlt r => match trunc_float r with Some z => Ok (VInt z) | None => Err OutOfFuel end
     | PStr s => match parse_int s with Some z => Ok (VInt z) | None => Err (Raise "ValueError") end
